@@ -5,7 +5,7 @@ C13, assembly: the accelerated scan of `f₁` after a cold scan of `f₀` agains
 cold scan of `f₁`.
 -/
 namespace Mutagen.Proofs.ScanAccelMain
-open Mutagen.Model Mutagen.Model.ScanFS Mutagen.Proofs.ScanFrame Mutagen.Proofs.ScanPaths Mutagen.Proofs.ScanFS Mutagen.Proofs.ScanCold Mutagen.Proofs.ScanReuse Mutagen.Proofs.ScanSim Mutagen.Proofs.ScanAccel
+open Mutagen.Model Mutagen.Model.ScanFS Mutagen.Proofs.ScanFrame Mutagen.Proofs.ScanPaths Mutagen.Proofs.ScanFS Mutagen.Proofs.ScanCold Mutagen.Proofs.ScanReuse Mutagen.Proofs.ScanSim Mutagen.Proofs.ScanAccel Mutagen.Proofs.ScanIgnKeys
 
 mutual
 theorem covers_dev (cfg : Cfg) (d : Nat) (dirty : List String) : (c₁ : Node) → (p : String) → (c₀ : Node) →
@@ -56,7 +56,11 @@ theorem accel_eq_cold_core (cfg : Cfg) (dev : Nat) (cs₀ cs₁ : Children) (rec
     (hr : recheck ≠ []) (hdirty : dirtyClosure recheck [] = some dirty)
     (hcov : Covers cfg dirty "" (.dir dev cs₀) (.dir dev cs₁)) :
     match scan cfg (prevOf out₀ recheck) (some (.dir dev cs₁)), scanCold cfg (some (.dir dev cs₁)) with
-    | .ok w, .ok c => w.snapshot = c.snapshot ∧ w.cache = c.cache ∧ IgnOK cfg w.ignoreCache ∧ IgnOK cfg c.ignoreCache
+    | .ok w, .ok c => w.snapshot = c.snapshot ∧ w.cache = c.cache ∧ IgnOK cfg w.ignoreCache ∧ IgnOK cfg c.ignoreCache ∧
+        (∀ k, k ∈ ikeys w.ignoreCache → k ∈ ikeys c.ignoreCache) ∧
+        (∀ k, k ∈ ikeys c.ignoreCache → k ∈ ikeys w.ignoreCache ∨
+          ∃ cp B, cp ≠ "" ∧ cp ∉ dirty ∧ BaseAt E₀ cp B ∧ Under k.1 cp ∧
+            ¬ (TrackedKey cp B k ∧ k ∈ ikeys out₀.ignoreCache))
     | .error e, .error e' => e = e'
     | _, _ => False := by
   -- the cold scan of the old tree
@@ -81,27 +85,30 @@ theorem accel_eq_cold_core (cfg : Cfg) (dev : Nat) (cs₀ cs₁ : Children) (rec
   subst hout₀
   -- its ignore cache agrees with the ignorer
   have hign₀ : IgnOK { cfg with deviceID := dev } d₀.newIgnore := by
-    have := sim_node { cfg with deviceID := dev } {} (fun kv hkv => by cases hkv) (.dir dev cs₀) "" true false (.none, "") none none
+    have := sim_node { cfg with deviceID := dev } {} E₀ (fun kv hkv => by cases hkv) (.dir dev cs₀) "" true false (.none, "") none none
       false (.none, "") (NamesOK_dev cfg dev validName _ hok₀)
-      ⟨(fun q _ => rfl), (fun c hc => by cases hc), (fun c hc => by cases hc)⟩ (Or.inl rfl) (fun c hc => by cases hc)
+      ⟨(fun q _ => rfl), (fun c hc => by cases hc), (fun c hc => by cases hc)⟩ (Or.inl rfl) (fun bb hbb => by cases hbb)
+      (fun c hc => by cases hc)
     simp only [cold] at this
     rw [hs₀] at this
-    exact this.2.2.2.2.2.2
+    exact this.2.2.2.2.2.2.1
   have hign₁ : IgnOK { cfg with deviceID := dev }
       (scanNode { cfg with deviceID := dev } {} "" true none false (.none, "") (.dir dev cs₁) {}).2.newIgnore := by
-    have := sim_node { cfg with deviceID := dev } {} (fun kv hkv => by cases hkv) (.dir dev cs₁) "" true false (.none, "") none none
+    have := sim_node { cfg with deviceID := dev } {} E₀ (fun kv hkv => by cases hkv) (.dir dev cs₁) "" true false (.none, "") none none
       false (.none, "") (NamesOK_dev cfg dev validName _ hok₁)
-      ⟨(fun q _ => rfl), (fun c hc => by cases hc), (fun c hc => by cases hc)⟩ (Or.inl rfl) (fun c hc => by cases hc)
+      ⟨(fun q _ => rfl), (fun c hc => by cases hc), (fun c hc => by cases hc)⟩ (Or.inl rfl) (fun bb hbb => by cases hbb)
+      (fun c hc => by cases hc)
     simp only [cold] at this
-    exact this.2.2.2.2.2.2
+    exact this.2.2.2.2.2.2.1
   -- the accelerated scan
   rw [prevOf, scan_accel_dir cfg _ recheck d₀.newCache d₀.newIgnore dev cs₁ E₀ dirty rfl hrootk rfl rfl hr hdirty, scanCold_dir]
-  have hsim := sim_node { cfg with deviceID := dev } { dirty := dirty, cache := d₀.newCache, ignoreCache := d₀.newIgnore } hign₀
+  have hsim := sim_node { cfg with deviceID := dev } { dirty := dirty, cache := d₀.newCache, ignoreCache := d₀.newIgnore } E₀ hign₀
     (.dir dev cs₁) "" true false (.none, "") (some E₀) (some (.dir dev cs₀)) false (.none, "")
     (NamesOK_dev cfg dev validName _ hok₁)
     ⟨(fun q _ => by simp only [cold]; rw [hs₀]), (fun c hc => by cases hc; exact NamesOK_dev cfg dev validName _ hok₀),
       (fun c hc _ _ => rfl)⟩
     (Or.inr ⟨_, E₀, rfl, by simp only [cold]; rw [hs₀], hrootk, rfl⟩)
+    (fun bb hbb => by cases hbb; exact BaseAt.root)
     (fun c hc => by cases hc; exact covers_dev cfg dev dirty _ _ _ hcov)
   simp only [cold] at hsim
   cases hra : scanNode { cfg with deviceID := dev } { dirty := dirty, cache := d₀.newCache, ignoreCache := d₀.newIgnore } "" true
@@ -111,13 +118,13 @@ theorem accel_eq_cold_core (cfg : Cfg) (dev : Nat) (cs₀ cs₁ : Children) (rec
   | mk rc dc =>
   rw [hra, hrc] at hsim
   rw [hrc] at hign₁
-  obtain ⟨hr', h1, h2, h3, h4, h5, h6⟩ := hsim
-  simp only at hr' h1 h2 h3 h4 h5 h6
+  obtain ⟨hr', h1, h2, h3, h4, h5, h6, h7, h8⟩ := hsim
+  simp only at hr' h1 h2 h3 h4 h5 h6 h7 h8
   subst hr'
   cases ra with
   | entry e =>
     simp only [outOf]
-    refine ⟨?_, h1, h6, hign₁⟩
+    refine ⟨?_, h1, h6, hign₁, h7, h8⟩
     simp [h2, h3, h4, h5]
   | notExist => simp [outOf]
   | abort => simp [outOf]
@@ -143,5 +150,100 @@ theorem exNamesLeafDir (c : Node) (hc : ∀ d cs, c ≠ .dir d cs) :
   refine ⟨by decide, ⟨?_, ?_, trivial⟩⟩
   · intro s hs; cases hs; decide
   · cases c <;> simp
+
+theorem scanCold_file (cfg : Cfg) (content : Bytes) (perm : Nat) (mtime : MTime) (size ino : Nat) :
+    scanCold cfg (some (.file content perm mtime size ino)) =
+      outOf cfg (scanNode cfg {} "" true none false (.none, "") (.file content perm mtime size ino) {}) := by
+  rfl
+
+/-- The accelerated scan of a file root with recheck paths: the handler runs with the
+old caches (and no directory baseline). -/
+theorem scan_accel_file (cfg : Cfg) (s : Snapshot) (recheck : List String) (cache : Cache) (ign : IgnoreCache)
+    (content : Bytes) (perm : Nat) (mtime : MTime) (size ino : Nat) (dirty : List String)
+    (hr : recheck ≠ []) (hdirty : dirtyClosure recheck [] = some dirty) :
+    ∃ X, scan cfg { baseline := some s, recheck := recheck, cache := cache, ignoreCache := ign }
+        (some (.file content perm mtime size ino)) =
+      outOf cfg (scanNode cfg { dirty := X, cache := cache, ignoreCache := ign } "" true none false
+        (.none, "") (.file content perm mtime size ino) {}) := by
+  unfold scan
+  cases recheck with
+  | nil => exact absurd rfl hr
+  | cons r rs =>
+    cases hc : s.content with
+    | none => exact ⟨[], by simp [hc]⟩
+    | some c =>
+      by_cases hcond : ((c.kind != Kind.file) || s.preservesExec != cfg.preservesExec || s.decomposes != cfg.decomposes) = true
+      · refine ⟨[], ?_⟩
+        simp at hcond
+        simp [hc, hcond]
+      · refine ⟨dirty, ?_⟩
+        simp at hcond
+        simp [hc, hcond, hdirty]
+
+/-- C13 for file roots. -/
+theorem accel_eq_cold_file_core (cfg : Cfg) (c₀ : Bytes) (p₀ : Nat) (m₀ : MTime) (s₀ i₀ : Nat)
+    (c₁ : Bytes) (p₁ : Nat) (m₁ : MTime) (s₁ i₁ : Nat) (recheck dirty : List String) (out₀ : Out)
+    (h₀ : scanCold cfg (some (.file c₀ p₀ m₀ s₀ i₀)) = .ok out₀)
+    (hr : recheck ≠ []) (hdirty : dirtyClosure recheck [] = some dirty)
+    (hcov : m₀ = m₁ → s₀ = s₁ → i₀ = i₁ → c₀ = c₁) :
+    match scan cfg (prevOf out₀ recheck) (some (.file c₁ p₁ m₁ s₁ i₁)), scanCold cfg (some (.file c₁ p₁ m₁ s₁ i₁)) with
+    | .ok w, .ok c => w.snapshot = c.snapshot ∧ w.cache = c.cache ∧ w.ignoreCache = [] ∧ c.ignoreCache = []
+    | .error e, .error e' => e = e'
+    | _, _ => False := by
+  rw [scanCold_file] at h₀
+  have hcold₀ : ∃ r₀ d₀, scanNode cfg {} "" true none false (.none, "") (.file c₀ p₀ m₀ s₀ i₀) {} = (r₀, d₀) ∧
+      out₀.cache = d₀.newCache ∧ out₀.ignoreCache = d₀.newIgnore := by
+    cases hs : scanNode cfg {} "" true none false (.none, "") (.file c₀ p₀ m₀ s₀ i₀) {} with
+    | mk r d₀ =>
+      rw [hs] at h₀
+      cases r with
+      | entry e =>
+        simp only [outOf] at h₀
+        cases h₀
+        exact ⟨_, d₀, rfl, rfl, rfl⟩
+      | notExist => simp [outOf] at h₀
+      | abort => simp [outOf] at h₀
+  obtain ⟨r₀, d₀, hs₀, hcache₀, hignc₀⟩ := hcold₀
+  have hnil₀ : d₀.newIgnore = [] := by
+    have := scanFile_ign cfg {} "" true c₀ p₀ m₀ s₀ i₀ {}
+    unfold scanNode at hs₀
+    rw [hs₀] at this
+    exact this
+  obtain ⟨X, hX⟩ := scan_accel_file cfg out₀.snapshot recheck out₀.cache out₀.ignoreCache c₁ p₁ m₁ s₁ i₁ dirty hr hdirty
+  rw [prevOf, hX, scanCold_file, hcache₀, hignc₀, hnil₀]
+  have hsim := sim_node cfg { dirty := X, cache := d₀.newCache, ignoreCache := [] } untracked (fun kv hkv => by cases hkv)
+    (.file c₁ p₁ m₁ s₁ i₁) "" true false (.none, "") none (some (.file c₀ p₀ m₀ s₀ i₀)) false (.none, "")
+    trivial
+    ⟨(fun q _ => by simp only [cold]; rw [hs₀]), (fun c hc => by cases hc; trivial),
+      (fun c hc h _ => by cases hc; cases h)⟩
+    (Or.inl rfl)
+    (fun bb hbb => by cases hbb)
+    (fun c hc => by cases hc; exact hcov)
+  simp only [cold] at hsim
+  have hnil₁ : (scanNode cfg {} "" true none false (.none, "") (.file c₁ p₁ m₁ s₁ i₁) {}).2.newIgnore = [] := by
+    unfold scanNode
+    exact scanFile_ign cfg {} "" true c₁ p₁ m₁ s₁ i₁ {}
+  have hnil₁' : (scanNode cfg { dirty := X, cache := d₀.newCache, ignoreCache := [] } "" true none false (.none, "")
+      (.file c₁ p₁ m₁ s₁ i₁) {}).2.newIgnore = [] := by
+    unfold scanNode
+    exact scanFile_ign cfg _ "" true c₁ p₁ m₁ s₁ i₁ {}
+  cases hra : scanNode cfg { dirty := X, cache := d₀.newCache, ignoreCache := [] } "" true none false (.none, "")
+      (.file c₁ p₁ m₁ s₁ i₁) {} with
+  | mk ra da =>
+  cases hrc : scanNode cfg {} "" true none false (.none, "") (.file c₁ p₁ m₁ s₁ i₁) {} with
+  | mk rc dc =>
+  rw [hra, hrc] at hsim
+  rw [hrc] at hnil₁
+  rw [hra] at hnil₁'
+  obtain ⟨hr', h1, h2, h3, h4, h5, h6, h7, h8⟩ := hsim
+  simp only at hr' h1 h2 h3 h4 h5 h6 h7 h8 hnil₁ hnil₁'
+  subst hr'
+  cases ra with
+  | entry e =>
+    simp only [outOf]
+    refine ⟨?_, h1, hnil₁', hnil₁⟩
+    simp [h2, h3, h4, h5]
+  | notExist => simp [outOf]
+  | abort => simp [outOf]
 
 end Mutagen.Proofs.ScanAccelMain
